@@ -1650,11 +1650,6 @@ static void do_source_file(const char *filename_in,
          exit(EX_IOERR);
       }
 
-      if (need_backup)
-      {
-         backup_create_md5_file(filename_in);
-      }
-
       if (filename_tmp != filename_out)
       {
          // We need to compare and then do a rename (but avoid redundant test when if_changed set)
@@ -1683,6 +1678,12 @@ static void do_source_file(const char *filename_in,
                exit(EX_IOERR);
             }
          }
+      }
+
+      if (need_backup)
+      {
+         // must describe the new content: only now is it in the file
+         backup_create_md5_file(filename_in);
       }
 
       if (keep_mtime)
